@@ -62,14 +62,18 @@ def adversarial(prog, rnd):
   adds a write-only and a read-only (module global) vocabulary name."""
   tree = ast.parse(prog.src)
   fnode = [n for n in tree.body if isinstance(n, ast.FunctionDef) and n.name == 'f'][0]
+  # only names that f (or a function nested in it) BINDS are renamed; references to
+  # module-level helpers and builtins keep their meaning
   idents = set()
   for n in ast.walk(fnode):
-    if isinstance(n, ast.Name):
+    if isinstance(n, ast.Name) and isinstance(n.ctx, (ast.Store, ast.Del)):
       idents.add(n.id)
     elif isinstance(n, ast.arg):
       idents.add(n.arg)
     elif isinstance(n, ast.FunctionDef) and n is not fnode:
       idents.add(n.name)
+    elif isinstance(n, (ast.Global,)):
+      idents -= set(n.names)
   idents -= KEEP
   idents = sorted(idents)
   names = rnd.sample(VOCAB, min(len(VOCAB), len(idents) + 2))
@@ -96,6 +100,47 @@ def adversarial(prog, rnd):
   p.mapping = mapping
   p.extra = extra
   return p
+
+
+# The converted function is itself a closure; a nested helper rebinds (through nonlocal) an
+# enclosing variable whose name is one the converter generates, and the converted function's
+# own body never mentions that name.
+def closure_programs():
+  out = []
+  for i, nm in enumerate(['do_return', 'retval_', 'break_', 'continue_', 'fscope', 'if_body', 'loop_body',
+                          'get_state', 'set_state', 'itr']):
+    src = '''def _mk():
+  %(N)s = 0
+  other = 7
+  def f(x, n, b, xs):
+    def reset():
+      nonlocal %(N)s
+      %(N)s = 0
+    def bump(k):
+      nonlocal %(N)s
+      %(N)s = %(N)s + k
+      return %(N)s
+    reset()
+    a = 0
+    w = 0
+    while w < n:
+      w = w + 1
+      if bump(w) > x + 5:
+        break
+      if w == x:
+        continue
+      a = a + t(1, w)
+    for e in xs:
+      if e > x:
+        return (a, bump(0), other)
+      a = a + bump(e)
+    return (a, bump(0), other)
+  return f
+
+f = _mk()
+''' % {'N': nm}
+    out.append(gen.Prog('clo:%s' % nm, src, {'closure_role'}))
+  return out
 
 
 WITNESS = []
@@ -191,7 +236,7 @@ def run(tier):
     sk3 = [p for p in gen.skeletons(3) if p.name.count('>') == 2]
     base = sk + rnd.sample(sk3, 500) + gen.random_programs(500, R.seed + 7, gen.ALL_FEATURES - {'global'})
   base += [gen.Prog(n, s, {'extra'}, C01.EXTRA_GLOBS.get(n)) for n, s in C01.EXTRA if 'global' not in n]
-  progs = [adversarial(p, rnd) for p in base]
+  progs = [adversarial(p, rnd) for p in base] + closure_programs()
   bounds = {'n': 3, 'len': 2}
   pct, ppt = (15.0, 4.0) if tier == 'quick' else (60.0, 10.0)
   e1run.run_family(R, progs, [M], bounds, pct, ppt, classify,
